@@ -8,8 +8,8 @@ import (
 	"bytes"
 	"encoding/hex"
 	"fmt"
-	"strconv"
 	"math/big"
+	"strconv"
 	"strings"
 	"testing"
 
@@ -112,33 +112,37 @@ func newUT() *utState {
 	u.s, _ = state.New(common.Hash{}, u.db)
 	return u
 }
-func (u *utState) Exist(a addr) bool           { return u.s.Exist(common.Address(a)) }
-func (u *utState) Empty(a addr) bool           { return u.s.Empty(common.Address(a)) }
-func (u *utState) Balance(a addr) *big.Int     { return u.s.GetBalance(common.Address(a)) }
-func (u *utState) Nonce(a addr) uint64         { return u.s.GetNonce(common.Address(a)) }
-func (u *utState) Code(a addr) []byte          { return u.s.GetCode(common.Address(a)) }
-func (u *utState) CodeHash(a addr) word        { return word(u.s.GetCodeHash(common.Address(a))) }
-func (u *utState) CodeSize(a addr) int         { return u.s.GetCodeSize(common.Address(a)) }
-func (u *utState) State(a addr, k word) word   { return word(u.s.GetState(common.Address(a), common.Hash(k))) }
+func (u *utState) Exist(a addr) bool       { return u.s.Exist(common.Address(a)) }
+func (u *utState) Empty(a addr) bool       { return u.s.Empty(common.Address(a)) }
+func (u *utState) Balance(a addr) *big.Int { return u.s.GetBalance(common.Address(a)) }
+func (u *utState) Nonce(a addr) uint64     { return u.s.GetNonce(common.Address(a)) }
+func (u *utState) Code(a addr) []byte      { return u.s.GetCode(common.Address(a)) }
+func (u *utState) CodeHash(a addr) word    { return word(u.s.GetCodeHash(common.Address(a))) }
+func (u *utState) CodeSize(a addr) int     { return u.s.GetCodeSize(common.Address(a)) }
+func (u *utState) State(a addr, k word) word {
+	return word(u.s.GetState(common.Address(a), common.Hash(k)))
+}
 func (u *utState) Committed(a addr, k word) word {
 	return word(u.s.GetCommittedState(common.Address(a), common.Hash(k)))
 }
-func (u *utState) Suicided(a addr) bool        { return u.s.HasSuicided(common.Address(a)) }
-func (u *utState) Refund() uint64              { return u.s.GetRefund() }
-func (u *utState) LogCount() int               { return len(u.s.Logs()) }
-func (u *utState) Create(a addr)               { u.s.CreateAccount(common.Address(a)) }
-func (u *utState) AddBal(a addr, v *big.Int)   { u.s.AddBalance(common.Address(a), new(big.Int).Set(v)) }
-func (u *utState) SubBal(a addr, v *big.Int)   { u.s.SubBalance(common.Address(a), new(big.Int).Set(v)) }
-func (u *utState) SetBal(a addr, v *big.Int)   { u.s.SetBalance(common.Address(a), new(big.Int).Set(v)) }
-func (u *utState) SetNonce(a addr, n uint64)   { u.s.SetNonce(common.Address(a), n) }
-func (u *utState) SetCode(a addr, c []byte)    { u.s.SetCode(common.Address(a), append([]byte{}, c...)) }
-func (u *utState) SetState(a addr, k, v word)  { u.s.SetState(common.Address(a), common.Hash(k), common.Hash(v)) }
-func (u *utState) Suicide(a addr) bool         { return u.s.Suicide(common.Address(a)) }
-func (u *utState) AddRefund(n uint64)          { u.s.AddRefund(n) }
-func (u *utState) AddLog(a addr)               { u.s.AddLog(&types.Log{Address: common.Address(a)}) }
-func (u *utState) Snapshot() int               { return u.s.Snapshot() }
-func (u *utState) Revert(id int)               { u.s.RevertToSnapshot(id) }
-func (u *utState) IRoot(del bool) word         { return word(u.s.IntermediateRoot(del)) }
+func (u *utState) Suicided(a addr) bool      { return u.s.HasSuicided(common.Address(a)) }
+func (u *utState) Refund() uint64            { return u.s.GetRefund() }
+func (u *utState) LogCount() int             { return len(u.s.Logs()) }
+func (u *utState) Create(a addr)             { u.s.CreateAccount(common.Address(a)) }
+func (u *utState) AddBal(a addr, v *big.Int) { u.s.AddBalance(common.Address(a), new(big.Int).Set(v)) }
+func (u *utState) SubBal(a addr, v *big.Int) { u.s.SubBalance(common.Address(a), new(big.Int).Set(v)) }
+func (u *utState) SetBal(a addr, v *big.Int) { u.s.SetBalance(common.Address(a), new(big.Int).Set(v)) }
+func (u *utState) SetNonce(a addr, n uint64) { u.s.SetNonce(common.Address(a), n) }
+func (u *utState) SetCode(a addr, c []byte)  { u.s.SetCode(common.Address(a), append([]byte{}, c...)) }
+func (u *utState) SetState(a addr, k, v word) {
+	u.s.SetState(common.Address(a), common.Hash(k), common.Hash(v))
+}
+func (u *utState) Suicide(a addr) bool { return u.s.Suicide(common.Address(a)) }
+func (u *utState) AddRefund(n uint64)  { u.s.AddRefund(n) }
+func (u *utState) AddLog(a addr)       { u.s.AddLog(&types.Log{Address: common.Address(a)}) }
+func (u *utState) Snapshot() int       { return u.s.Snapshot() }
+func (u *utState) Revert(id int)       { u.s.RevertToSnapshot(id) }
+func (u *utState) IRoot(del bool) word { return word(u.s.IntermediateRoot(del)) }
 func (u *utState) Commit(del bool) (word, error) {
 	r, err := u.s.Commit(del)
 	return word(r), err
@@ -172,33 +176,43 @@ func newRef() *refState {
 	u.s, _ = rstate.New(rcommon.Hash{}, u.db)
 	return u
 }
-func (u *refState) Exist(a addr) bool           { return u.s.Exist(rcommon.Address(a)) }
-func (u *refState) Empty(a addr) bool           { return u.s.Empty(rcommon.Address(a)) }
-func (u *refState) Balance(a addr) *big.Int     { return u.s.GetBalance(rcommon.Address(a)) }
-func (u *refState) Nonce(a addr) uint64         { return u.s.GetNonce(rcommon.Address(a)) }
-func (u *refState) Code(a addr) []byte          { return u.s.GetCode(rcommon.Address(a)) }
-func (u *refState) CodeHash(a addr) word        { return word(u.s.GetCodeHash(rcommon.Address(a))) }
-func (u *refState) CodeSize(a addr) int         { return u.s.GetCodeSize(rcommon.Address(a)) }
-func (u *refState) State(a addr, k word) word   { return word(u.s.GetState(rcommon.Address(a), rcommon.Hash(k))) }
+func (u *refState) Exist(a addr) bool       { return u.s.Exist(rcommon.Address(a)) }
+func (u *refState) Empty(a addr) bool       { return u.s.Empty(rcommon.Address(a)) }
+func (u *refState) Balance(a addr) *big.Int { return u.s.GetBalance(rcommon.Address(a)) }
+func (u *refState) Nonce(a addr) uint64     { return u.s.GetNonce(rcommon.Address(a)) }
+func (u *refState) Code(a addr) []byte      { return u.s.GetCode(rcommon.Address(a)) }
+func (u *refState) CodeHash(a addr) word    { return word(u.s.GetCodeHash(rcommon.Address(a))) }
+func (u *refState) CodeSize(a addr) int     { return u.s.GetCodeSize(rcommon.Address(a)) }
+func (u *refState) State(a addr, k word) word {
+	return word(u.s.GetState(rcommon.Address(a), rcommon.Hash(k)))
+}
 func (u *refState) Committed(a addr, k word) word {
 	return word(u.s.GetCommittedState(rcommon.Address(a), rcommon.Hash(k)))
 }
-func (u *refState) Suicided(a addr) bool        { return u.s.HasSuicided(rcommon.Address(a)) }
-func (u *refState) Refund() uint64              { return u.s.GetRefund() }
-func (u *refState) LogCount() int               { return len(u.s.Logs()) }
-func (u *refState) Create(a addr)               { u.s.CreateAccount(rcommon.Address(a)) }
-func (u *refState) AddBal(a addr, v *big.Int)   { u.s.AddBalance(rcommon.Address(a), new(big.Int).Set(v)) }
-func (u *refState) SubBal(a addr, v *big.Int)   { u.s.SubBalance(rcommon.Address(a), new(big.Int).Set(v)) }
-func (u *refState) SetBal(a addr, v *big.Int)   { u.s.SetBalance(rcommon.Address(a), new(big.Int).Set(v)) }
-func (u *refState) SetNonce(a addr, n uint64)   { u.s.SetNonce(rcommon.Address(a), n) }
-func (u *refState) SetCode(a addr, c []byte)    { u.s.SetCode(rcommon.Address(a), append([]byte{}, c...)) }
-func (u *refState) SetState(a addr, k, v word)  { u.s.SetState(rcommon.Address(a), rcommon.Hash(k), rcommon.Hash(v)) }
-func (u *refState) Suicide(a addr) bool         { return u.s.Suicide(rcommon.Address(a)) }
-func (u *refState) AddRefund(n uint64)          { u.s.AddRefund(n) }
-func (u *refState) AddLog(a addr)               { u.s.AddLog(&rtypes.Log{Address: rcommon.Address(a)}) }
-func (u *refState) Snapshot() int               { return u.s.Snapshot() }
-func (u *refState) Revert(id int)               { u.s.RevertToSnapshot(id) }
-func (u *refState) IRoot(del bool) word         { return word(u.s.IntermediateRoot(del)) }
+func (u *refState) Suicided(a addr) bool { return u.s.HasSuicided(rcommon.Address(a)) }
+func (u *refState) Refund() uint64       { return u.s.GetRefund() }
+func (u *refState) LogCount() int        { return len(u.s.Logs()) }
+func (u *refState) Create(a addr)        { u.s.CreateAccount(rcommon.Address(a)) }
+func (u *refState) AddBal(a addr, v *big.Int) {
+	u.s.AddBalance(rcommon.Address(a), new(big.Int).Set(v))
+}
+func (u *refState) SubBal(a addr, v *big.Int) {
+	u.s.SubBalance(rcommon.Address(a), new(big.Int).Set(v))
+}
+func (u *refState) SetBal(a addr, v *big.Int) {
+	u.s.SetBalance(rcommon.Address(a), new(big.Int).Set(v))
+}
+func (u *refState) SetNonce(a addr, n uint64) { u.s.SetNonce(rcommon.Address(a), n) }
+func (u *refState) SetCode(a addr, c []byte)  { u.s.SetCode(rcommon.Address(a), append([]byte{}, c...)) }
+func (u *refState) SetState(a addr, k, v word) {
+	u.s.SetState(rcommon.Address(a), rcommon.Hash(k), rcommon.Hash(v))
+}
+func (u *refState) Suicide(a addr) bool { return u.s.Suicide(rcommon.Address(a)) }
+func (u *refState) AddRefund(n uint64)  { u.s.AddRefund(n) }
+func (u *refState) AddLog(a addr)       { u.s.AddLog(&rtypes.Log{Address: rcommon.Address(a)}) }
+func (u *refState) Snapshot() int       { return u.s.Snapshot() }
+func (u *refState) Revert(id int)       { u.s.RevertToSnapshot(id) }
+func (u *refState) IRoot(del bool) word { return word(u.s.IntermediateRoot(del)) }
 func (u *refState) Commit(del bool) (word, error) {
 	r, err := u.s.Commit(del)
 	return word(r), err
@@ -379,7 +393,7 @@ type stRun struct {
 	u, r  sdb
 	snaps []snap
 	cur   []string // dump of the state under test after the previous operation
-	muts  []mut // the journaled operations of the current transaction that were not reverted
+	muts  []mut    // the journaled operations of the current transaction that were not reverted
 	stats struct{ reverts, richReverts, nested, reopenDisk, reopenCache, suicides, resets, rootChecks, deletedEmpty int }
 }
 
